@@ -92,6 +92,8 @@ func c02Universe(name string) []c02Shape {
 			{filter: "f2"},
 			{filter: "END"},
 			{filter: "END", alias: "end"},
+			{filter: "f1", jump: [][2]string{{"R1", "END"}}},
+			{filter: "f2", alias: "a", jump: [][2]string{{"r2 ", "END"}, {"r2", "end"}}},
 		}
 	default:
 		out = []c02Shape{
